@@ -12,6 +12,10 @@ def classify(sig, what):
         return 'A3: an inline allOf used as a property schema is rendered as an anonymous struct whose optional member with maximum: 0 (a pointer, because zero must be distinguishable) is dereferenced by the validator without a nil check: Validate panics (nil pointer dereference) on a document that omits the member.'
     if chain.endswith('>allOf') and not gen_true:
         return 'A1/A2: an inline allOf used as a property (or as a member of another allOf) is rendered as an anonymous struct validated in place: its member properties are rendered Required although the member schema does not require them (A1), and optional numeric/string members with a lower bound are validated without the "if zero, not required" guard (A2) - a document that legitimately omits the member is rejected.'
+    if ctx[0] in ('props+minProps', 'props+maxProps') and 'string/date' in sig:
+        return 'Z1 (validation face): minProperties / maxProperties of an object with declared properties are checked on the re-marshalled model; an OPTIONAL date / date-time property is a non-pointer strfmt value that is never omitted (it re-encodes as year 1), so it is counted although the document does not hold it: ' + ('a document with too few properties is accepted' if gen_true else 'a document within the limit is rejected') + ' (' + chain + ').'
+    if any(c.startswith('allOf') for c in ctx) and not gen_true and 'z in body is required' in what:
+        return 'A1: an inline allOf used as a property, item or map value (or as a member of another allOf) is rendered as an anonymous struct validated in place and EVERY member property is rendered Required, although only some are required by their member schema: a document without the optional member property z is rejected (' + chain + ').'
     hasmap = any(c.startswith('map') for c in ctx)
     if 'props+addl>ref' in chain and gen_true:
         return 'AP1: additionalProperties: {$ref: <validated primitive definition>} next to declared properties is decoded into map[string]*T and the values are not validated: a value violating the bounds of the referenced definition is accepted (at any nesting depth).'
